@@ -1145,6 +1145,11 @@ class Interp(object):
             return self.list_binop(op, a, b)
         if self.is_intlike(a) and self.is_seqlike(b) and op == 'Mult':
             return self.seq_binop(op, b, a)
+        if isinstance(a, (bool, SBool)) and isinstance(b, (bool, SBool)) and op in ('BitOr', 'BitAnd', 'BitXor'):
+            ta, tb = self.bool_term(a), self.bool_term(b)
+            ta = z3.BoolVal(ta) if isinstance(ta, bool) else ta
+            tb = z3.BoolVal(tb) if isinstance(tb, bool) else tb
+            return self.wrap_bool({'BitOr': z3.Or, 'BitAnd': z3.And, 'BitXor': z3.Xor}[op](ta, tb))
         if self.is_intlike(a) and self.is_intlike(b):
             return self.int_binop(op, a, b)
         if isinstance(a, float) or isinstance(b, float):
@@ -1472,8 +1477,14 @@ class Interp(object):
                 if e is not True:
                     ts.append(e)
             return self.rw(z3.And(*ts)) if ts else True
-        if isinstance(a, (STup, tuple)) and isinstance(b, (STup, tuple)):
-            ek = a.ek if isinstance(a, STup) else b.ek
+        def _is_listlike(v):
+            return isinstance(v, (STup, tuple)) or (isinstance(v, Ref) and isinstance(self.cell(v), ListCell))
+        if _is_listlike(a) and _is_listlike(b):
+            if isinstance(a, (STup, tuple)) != isinstance(b, (STup, tuple)) and not self.pure:
+                return False        # a list never equals a tuple
+            ek = self.seq_elem_kind(a) or self.seq_elem_kind(b)
+            if ek is None:
+                return True
             return self.rw(self.any_seq_term_k(a, ek) == self.any_seq_term_k(b, ek))
         # objects with user-defined __eq__
         ta, tb = self.pytype(a), self.pytype(b)
